@@ -1,3 +1,4 @@
+import Wayfind.Proofs.NodesCache
 import Wayfind.Proofs.Reachable
 import Wayfind.Proofs.Corollaries
 import Wayfind.Proofs.SameLive
@@ -54,3 +55,31 @@ example :
     let a := Node.optimize (Node.insert (Node.optimize (Node.insert Node.empty [.stat [47, 97, 98]] i)) [.stat [47, 97, 99]] i)
     let b := Node.optimize (Node.insert (Node.optimize (Node.insert Node.empty [.stat [47, 97, 99]] i)) [.stat [47, 97, 98]] i)
     Node.skel a = Node.skel b := by rfl
+
+/-! ## the `sorted` cache of `Nodes` (src/nodes.rs), fifth session
+
+The tree model sorts plain child lists; `Model/NodesCache.lean` models the vector-with-a-flag of the code method by method
+(`new`, `push`, `remove`, `iter_mut`, `IndexMut`, `sort` with its early return). `lt` is any strict total order; sibling keys
+are pairwise different. Which method touches the flag how is re-extracted from the source on every run and compared with
+this model as a tripwire of the check (`nodes_cache_ops`). -/
+
+/-- the cache is sound along every use: a set flag means a sorted vector — established by `sort`, kept by `remove`,
+trivially true after `new` / `push` / `iter_mut` (they clear the flag) -/
+theorem C05_sort_cache_sound {α : Type} (lt : α → α → Bool) (st : NodesC.StrictTotal lt) (c : NodesC α) (h : NodesC.CacheOK lt c) :
+    (∀ x, NodesC.CacheOK lt (c.push x)) ∧ (∀ f, NodesC.CacheOK lt (c.iterMut f)) ∧ (∀ i, NodesC.CacheOK lt (c.remove i)) ∧
+    (c.vec.Nodup → NodesC.CacheOK lt (c.sort lt)) :=
+  ⟨fun x => NodesC.cacheOK_push lt c x, fun f => NodesC.cacheOK_iterMut lt c f, fun i => NodesC.cacheOK_remove st c i h,
+   fun hnd => NodesC.cacheOK_sort st c hnd h⟩
+
+/-- **the cache is unobservable**: under the invariant `sort` leaves the sorted vector whether or not it returns early -/
+theorem C05_sort_cache_unobservable {α : Type} (lt : α → α → Bool) (c : NodesC α) (h : NodesC.CacheOK lt c) :
+    (c.sort lt).vec = NodesC.sortList lt c.vec := NodesC.sort_vec lt c h
+
+/-- as `optimize` uses a child vector (iterate mutably, then sort) the early return is never taken -/
+theorem C05_optimize_sorts_whatever_the_flag {α : Type} (lt : α → α → Bool) (f : α → α) (c : NodesC α) :
+    (c.optimizeVec lt f).vec = NodesC.sortList lt (c.vec.map f) ∧ (c.optimizeVec lt f).sorted = true :=
+  NodesC.optimizeVec_vec lt f c
+
+/-- non-vacuity: a strictly sorted vector with the flag set satisfies the invariant; so does any vector with the flag clear -/
+example : NodesC.CacheOK (fun a b : Nat => decide (a < b)) ⟨[1, 4, 9], true⟩ := by
+  intro _; simp [NodesC.Sorted]
